@@ -147,6 +147,14 @@ def run(ctx: Ctx, tier: str) -> Result:
                              "was present before start (a debugger) is overwritten" % ext))
 
     for fi, call, ext in restores:
+        # once the hooks were installed nothing but the `installed` flag decides whether they are put back
+        ok_flag = lambda c_: any(isinstance(n_, ast.Attribute) and isinstance(n_.value, ast.Name) and n_.value.id == "self" and   # noqa: E731
+                                 all(isinstance(v_, ast.Constant) and isinstance(v_.value, bool) for _, v_, _ in t.field_stores(fi.cls, n_.attr)) and t.field_stores(fi.cls, n_.attr)
+                                 for n_ in ast.walk(c_)) or "NO_TRACE" in norm(c_)
+        extra_ = [c_ for c_, _ in paths.conditions(p, call, fi) if not ok_flag(c_)]
+        if extra_:
+            res.fail(Finding("C14.C", fi.qname, extra_[0], fi.loc(extra_[0]), "the saved hook is only put back when `%s`: on other paths (shutdown called from another thread, another "
+                             "tool having replaced the function meanwhile) the agent's hook stays installed for new threads" % norm(extra_[0])[:70]))
         arg = call.args[0] if call.args else None
         need(arg is not None, "restore call without argument")
         getter = ext.replace("settrace", "gettrace")
@@ -237,6 +245,17 @@ def run(ctx: Ctx, tier: str) -> Result:
             res.fail(Finding("C14.D", shutdown.qname, s_.node, shutdown.loc(s_.node),
                              "the handler at line %d can fail itself (`%s` may raise %s): the failure it was meant to contain leaves shutdown, the remaining "
                              "steps are skipped" % (hs[0].lineno, norm(s_.node)[:50], "/".join(sorted(e_))), path=g.fmt_chain(sorted(e_.items())[0][1])))
+    # the plugin list walked by shutdown is not changed by the plugins' shutdown code in the repository (removing the current
+    # element makes the loop skip the next plugin)
+    MUT = ("remove", "pop", "append", "insert", "clear", "extend", "sort", "reverse")
+    pl_sd = p.func("deep.api.plugin.Plugin.shutdown")
+    for f_ in [pl_sd] + [x for x in t.overrides(pl_sd.cls.qname, "shutdown")]:
+        for c_ in t.calls_in(f_):
+            if isinstance(c_.func, ast.Attribute) and c_.func.attr in MUT:
+                tgt = ctx.expand.expand(c_.func.value, f_)
+                if any("plugins" in x for x in tgt):
+                    res.fail(Finding("C14.D", f_.qname, c_, f_.loc(c_), "a plugin's shutdown modifies the list of plugins (`%s`) that Deep.shutdown is iterating: the plugin after it is "
+                                     "skipped and never shut down" % norm(c_)[:60]))
     flag_clear = [n for n in steps if isinstance(n, ast.Assign)]
     if flag_clear and all(isinstance(n.value, ast.Constant) and n.value.value is False for n in flag_clear):
         res.ok("C14.D", {"started cleared": shutdown.loc(flag_clear[-1])})
@@ -291,4 +310,6 @@ def run(ctx: Ctx, tier: str) -> Result:
         res.ok("C14.E", {"timer loop exits on the stop event": tgt.loc(waits[0])})
     else:
         res.fail(Finding("C14.E", tgt.qname, "<while not event.wait()>", tgt.loc(), "timer loop does not test the stop event"))
+    from .common import borrow
+    borrow(ctx, res, tier, "c09", ("C09.A", "C09.D"), "C14.AFTER", "after shutdown nothing is delivered: work offered to the closed handler is refused, never run in place")
     return res
